@@ -1,4 +1,43 @@
 import Driver.Common
+import AnyioModel.Iter.Tee
 
-/-- placeholder driver: replies `unimplemented` to every request -/
-def main : IO Unit := Driver.serve () (fun s _ => (s, "unimplemented"))
+/-!
+Line protocol of `md_tee`:
+
+    new <n> <x> ...      n consumers over the source sequence x ...     -> ok
+    next <i> | step <i> | src_yield | src_end                           -> susp | ret <v> | stop | runtimeerror | DISABLED
+    obs                                                                 -> calls=<source __anext__ invocations>
+-/
+namespace Driver.Tee
+open AnyioModel.Iter.Tee
+
+def outStr : Out Int → String
+  | .susp => "susp"
+  | .ret v => s!"ret {v}"
+  | .stop => "stop"
+  | .runtimeError => "runtimeerror"
+
+def parseEv : List String → Option Ev
+  | ["next", i] => do some (.next (← i.toNat?))
+  | ["step", i] => do some (.step (← i.toNat?))
+  | ["src_yield"] => some .srcYield
+  | ["src_end"] => some .srcEnd
+  | _ => none
+
+def handle (s : State Int) : List String → State Int × String
+  | "new" :: n :: xs =>
+    match n.toNat?, xs.mapM String.toInt? with
+    | some n, some xs => (init n xs, "ok")
+    | _, _ => (s, "bad-op")
+  | ["obs"] => (s, s!"calls={s.srcCalls}")
+  | ws =>
+    match parseEv ws with
+    | none => (s, "bad-op")
+    | some e =>
+      match step s e with
+      | none => (s, "DISABLED")
+      | some (s', o) => (s', outStr o)
+
+end Driver.Tee
+
+def main : IO Unit := Driver.serve (AnyioModel.Iter.Tee.init 0 ([] : List Int)) Driver.Tee.handle
